@@ -38,6 +38,8 @@ def main():
     try:
         r = sh("git -C %s apply %s" % (wt, os.path.abspath(a.patch)))
         if r.returncode:
+            r = sh("git -C %s apply -3 %s" % (wt, os.path.abspath(a.patch)))
+        if r.returncode:
             print("patch does not apply:", r.stderr)
             return 2
         if a.tests:
